@@ -157,6 +157,9 @@ class PhysCell:
             X = X - np.einsum("pij,pj->pi", np.linalg.inv(self.J(X)), r)
         if float(np.abs(self.x(X) - x).max()) > 1e-12:
             raise RuntimeError("Newton inverse of a non-affine cell did not converge")
+        g = ref_geometry(self.cell)
+        if np.any(X < g.min(axis=0) - 1e-9) or np.any(X > g.max(axis=0) + 1e-9):
+            raise RuntimeError("Newton inverse of a non-affine cell left the reference cell")
         return X
 
     def centroid(self):
@@ -854,34 +857,47 @@ def _edge_nodes_p2(cell):
     return out
 
 
-def promote(pc, geom, rng, keep_facet=None):
+def _untangled(out, pc):
+    """det J of the non-affine cell keeps the sign of the affine cell it was made from and at least 30% of its size at the
+    vertices, edge midpoints and centroid (a tangled or nearly degenerate cell is a harness artefact, not an input)."""
+    g = ref_geometry(pc.cell)
+    X = np.vstack([g, [0.5 * (g[a] + g[b]) for a, b in ref_topology(pc.cell)[1]], g.mean(axis=0)[None, :]])
+    d0 = float(np.linalg.det(pc.B))
+    return bool(np.all(np.linalg.det(out.J(X)) * np.sign(d0) > 0.3 * abs(d0)))
+
+
+def promote(pc, geom, rng, keep_facet=None, shared=None):
     """Non-affine version of the affine cell `pc`: "q1" moves the vertices that are not on facet `keep_facet` (a bilinear
     quadrilateral with straight edges), "p2" adds the edge-midpoint nodes of the degree-2 coordinate element and moves them
-    off the chords (curved edges; the node on `keep_facet` is set by the caller so that both cells share it)."""
+    off the chords (curved edges); `shared` = (node index, position) fixes the node on the facet shared with the other cell.
+    Perturbations are relative to the cell size; tangled results are redrawn with a smaller amplitude."""
     if geom == "affine":
         return pc
     cell, td = pc.cell, pc.tdim
     fixed = set(ref_topology(cell)[td - 1][keep_facet]) if keep_facet is not None else set()
-    if geom == "q1":
-        V = pc.V.copy()
-        for i in range(V.shape[0]):
-            if i not in fixed:
-                V[i] += dyadic(rng, (td,), -6, 6, 64.0)
-        if all(i in fixed for i in range(V.shape[0])):
-            raise HarnessGeometryError("q1 promotion: no free vertex")
-        out = PhysCell(cell, V)
-    elif geom == "p2":
-        nodes = np.asarray(coord_element(cell, 2).points, dtype=float)
-        V = pc.x(nodes)
-        nv = ref_geometry(cell).shape[0]
-        for i in range(nv, V.shape[0]):
-            V[i] += dyadic(rng, (td,), -4, 4, 64.0)
-        out = PhysCell(cell, V, gdeg=2)
-    else:
-        raise HarnessGeometryError(f"unknown geometry kind {geom}")
-    if out.affine:  # all perturbations happened to be zero: force one
-        return promote(pc, geom, rng, keep_facet)
-    return out
+    size = abs(float(np.linalg.det(pc.B))) ** (1.0 / td)
+    for attempt in range(12):
+        amp = size / (8.0 * (1 + attempt))
+        if geom == "q1":
+            V = pc.V.copy()
+            for i in range(V.shape[0]):
+                if i not in fixed:
+                    V[i] += amp * dyadic(rng, (td,), -8, 8, 8.0)
+            out = PhysCell(cell, V)
+        elif geom == "p2":
+            nodes = np.asarray(coord_element(cell, 2).points, dtype=float)
+            V = pc.x(nodes)
+            nv = ref_geometry(cell).shape[0]
+            for i in range(nv, V.shape[0]):
+                V[i] += amp * dyadic(rng, (td,), -8, 8, 8.0)
+            if shared is not None:
+                V[shared[0]] = shared[1]
+            out = PhysCell(cell, V, gdeg=2)
+        else:
+            raise HarnessGeometryError(f"unknown geometry kind {geom}")
+        if not out.affine and _untangled(out, pc):
+            return out
+    raise HarnessGeometryError(f"could not build an untangled non-affine {geom} {cell}")
 
 
 def make_cells(case, ents, rng):
@@ -899,14 +915,25 @@ def make_cells(case, ents, rng):
         cm = neighbour_cell(cp, ents[0], cell, ents[1], tau, rng)
     except AssertionError as ex:
         raise HarnessGeometryError(f"neighbour_cell: {ex}") from ex
-    if case.geom != "affine":
-        cp = promote(cp, case.geom, rng, keep_facet=ents[0])
-        cm = promote(cm, case.geom, rng, keep_facet=ents[1])
-        if case.geom == "p2":  # the node on the shared (curved) edge is common to both cells
-            en = _edge_nodes_p2(cell)
-            Vm = cm.V.copy()
-            Vm[en[ents[1]]] = cp.V[en[ents[0]]]
-            cm = PhysCell(cell, Vm, gdeg=2)
+    if case.geom == "q1":
+        cp = promote(cp, "q1", rng, keep_facet=ents[0])
+        cm = promote(cm, "q1", rng, keep_facet=ents[1])
+    elif case.geom == "p2":
+        # the node on the shared (curved) edge is common to both cells: displaced relative to the smaller cell
+        en = _edge_nodes_p2(cell)
+        mid = cp.x(np.asarray(coord_element(cell, 2).points, dtype=float))[en[ents[0]]]
+        base = min(abs(float(np.linalg.det(c.B))) ** (1.0 / cp.tdim) for c in (cp, cm))
+        for attempt in range(8):
+            pos = mid + base / (8.0 * (1 + attempt)) * dyadic(rng, (cp.tdim,), -8, 8, 8.0)
+            try:
+                cp2 = promote(cp, "p2", rng, keep_facet=ents[0], shared=(en[ents[0]], pos))
+                cm2 = promote(cm, "p2", rng, keep_facet=ents[1], shared=(en[ents[1]], pos))
+                break
+            except HarnessGeometryError:
+                continue
+        else:
+            raise HarnessGeometryError("could not build an untangled pair of P2 triangles sharing a curved edge")
+        cp, cm = cp2, cm2
     Np = int(rng.integers(0, NUM_CODES[ft]))
     psi = cp.facet_param(ents[0], perm_np(ft, Np, TEST_POINTS[ft]))
     cands = aligning_codes(ft, lambda X: cm.facet_param(ents[1], X), psi)
@@ -1580,7 +1607,10 @@ def corr_layout(chk, d, rng):
     cp = random_affine_cell(cell, rng)
     cm = neighbour_cell(cp, 0, cell, 1, (0, 1), rng)
     psi = cp.facet_param(0, TEST_POINTS["interval"])
-    Nm = aligning_codes("interval", lambda X: cm.facet_param(1, X), psi)[0]
+    cands = aligning_codes("interval", lambda X: cm.facet_param(1, X), psi)
+    if len(cands) != 1:
+        raise HarnessGeometryError(f"align:interval:no-unique-code (candidates {cands})")
+    Nm = cands[0]
     x0 = np.concatenate([cp.coordinate_dofs().reshape(-1), cm.coordinate_dofs().reshape(-1)])
     with pipeline.TmpCache() as cache:
         res, mod, _ = pipeline.jit_forms(forms, cache)
@@ -1654,7 +1684,7 @@ def probe_rfev(chk, rng):
             res, mod, _ = pipeline.jit_forms(forms, cache)
         except Exception as ex:  # noqa: BLE001
             chk.notes["rfev_probe"] = f"rejected: {type(ex).__name__}"
-            return
+            return None
         chk.programs += len(forms)
         for form, (a, b) in zip(res, comps):
             integral = integrals_of(form, "exterior_facet")[0]
@@ -1717,34 +1747,87 @@ def oracle_corpus(chk):
                           {"entry": r["name"], **b})
 
 
+def lean_obligations(chk):
+    """FfcxProofs.C02 (+ table_access_spec of C03) and, separately, FfcxProofs.C02Known: the statements that are expected
+    to turn false when the known finding is repaired upstream.  Returns (c02_ok, known_ok)."""
+    L = lean.LEAN
+    c02_ok = chk.lean("FfcxProofs.C02", THEOREMS, extra_files=[
+        L / "FfcxProofs/Lemmas/Geom.lean", L / "FfcxModel/Geometry/RefCell.lean", L / "FfcxModel/IR/Perm.lean",
+        L / "FfcxModel/Geometry/TableRead.lean", L / "FfcxModel/Generated/RefCells.lean"])
+    # value read = basis function at the entity map of the permuted point
+    chk.lean("FfcxProofs.C03", ["Ffcx.C03.table_access_spec", "Ffcx.C03.table_access_spec_noperm"],
+             extra_files=[L / "FfcxProofs/Lemmas/GeomIndep.lean"])
+    known_ok = chk.lean("FfcxProofs.C02Known", KNOWN_THEOREMS)
+    return c02_ok, known_ok
+
+
+def known_finding_obligation(chk, c02_ok, known_ok, reproduced):
+    """Make a flipped `FfcxProofs.C02Known` say what it means.  `reproduced`: the compiled-kernel probe still shows the
+    defect (True), no longer shows it (False), or could not run (None)."""
+    chk.notes["known_finding_model"] = {"module_builds": bool(known_ok), "kernel_probe_reproduces": reproduced}
+    if known_ok:
+        if reproduced is False:
+            chk.disagree("known finding reproduces in the model (FfcxProofs.C02Known builds) but not on the compiled kernel",
+                         {"key": KNOWN_FINDING_KEY, "hint": "update known_findings.jsonl / the probe"})
+        return
+    if not c02_ok:
+        return  # FfcxProofs.C02 itself is broken: C02Known (which imports it) says nothing on its own
+    msg = (f"known finding no longer reproduces in the model: update known_findings.jsonl ({KNOWN_FINDING_KEY}; "
+           f"FfcxProofs.C02Known / {', '.join(KNOWN_THEOREMS)} is false on the regenerated reference tables"
+           + ("; the compiled-kernel probe no longer shows the defect either" if reproduced is False else
+              "; the compiled-kernel probe STILL shows the defect" if reproduced else "") + ")")
+    for b in chk.broken:
+        if b.get("kind") == "lean-build" and b.get("module") == "FfcxProofs.C02Known":
+            b["what"] = msg
+    print(f"[C02] {msg}")
+
+
+def check_extraction(chk):
+    """An unexpected `none` table / rejected access handler in the regenerated data (a writer that starts raising, or a
+    probe of extract_geom.py that no longer fits FFCx) would silently turn guarded parts of the `decide` theorems vacuous."""
+    for f in extract_geom.unexpected_failures():
+        chk.disagree("extract_geom: a geometry table / access handler is unexpectedly absent", f)
+    seen = {(k, c, t) for k, c, t, *_ in extract_geom.FAILURES}
+    gone = sorted(" ".join(k) for k in extract_geom.EXPECTED_ABSENT if k not in seen)
+    if gone:
+        chk.notes["extract_geom_now_present"] = gone  # new support upstream: not an alarm
+    chk.notes["extract_geom_absent"] = len(extract_geom.FAILURES)
+    if extract_geom.SHAPE_NOTES:
+        chk.notes["extract_geom_shape_notes"] = list(extract_geom.SHAPE_NOTES)
+    for c in extract_geom.CELLS[1:]:
+        chk.case(kind="extract_tables", key=c, n=len(extract_geom.TABLES) + len(extract_geom.ACCESS))
+
+
 def run(chk):
     rng = np.random.default_rng(1000 + chk.seed)
     random.seed(chk.seed)
-    chk.rule = ("search: one case per (form, local entity index [pair]) on a fresh random affine geometry with "
-                "random dyadic coefficients, distinct on the two cells; distinct non-trivial = oracle value "
-                "non-zero; correspondence: one case per (cell, entity) map, (entity type, restriction), "
-                "(table, permutation row, entity) block and layout block")
+    quick = chk.tier == "quick"
+    chk.rule = ("search: one case per (form, local entity index [pair]) on a fresh random geometry with random dyadic "
+                "coefficients, distinct on the two cells — `oracle`: affine cells, every entity (pair; 3D quick: every index on "
+                "both sides, two partner offsets), `oracle_nonaffine`: bilinear quadrilaterals and P2 triangles, every entity "
+                "pair; distinct non-trivial = oracle value non-zero; correspondence: one case per (cell, entity) map, (entity "
+                "type, restriction), (table, permutation row, entity) block, layout block, and `real_table_read`: one case per "
+                "seeded (real table, restriction, quadrature_permutation, entity_local_index, point, dof) "
+                f"({8 if quick else 24} reads per table incl. the all-maximal tuple)")
     chk.trusted += [
         "harness/extract_geom.py (basix/FFCx tables -> exact rationals in Generated/RefCells.lean)",
-        "the independent oracle in harness/props/c02.py (numpy + basix tabulation/quadrature; affine cells)",
+        "the independent oracle in harness/props/c02.py (numpy + basix tabulation/quadrature; affine cells, bilinear "
+        "quadrilaterals, P2 triangles)",
         "basix reference geometry, topology, tabulation and quadrature taken as given",
     ]
     chk.assumptions += [
-        "search geometries are affine images of the reference cells (parallelotopes for quadrilateral/hexahedron), "
-        "degree-1 coordinate elements, gdim = tdim; Lagrange P1/P2 (Q1/Q2) integrands",
+        "search geometries: affine images of the reference cells (parallelotopes for quadrilateral/hexahedron) with degree-1 "
+        "coordinate elements, plus non-affine bilinear quadrilaterals and triangles with a degree-2 coordinate element "
+        "(fixed quadrature degree, same basix rule in kernel and oracle); gdim = tdim; Lagrange P1/P2 (Q1/Q2) integrands",
         "interior-facet integrals on prisms are rejected by FFCx (UnboundLocalError in build_optimized_tables) and "
         "FacetNormal on prisms is rejected by access.reference_normal: not searched (rejections are C19's subject)",
         "floating point: kernels are compared with the oracle to relative 1e-10 (scaled by max(1, |A|))",
     ]
     # (a) obligations over regenerated tables
     chk.notes["refcells_rewritten"] = extract_geom.regenerate()
-    L = lean.LEAN
-    chk.lean("FfcxProofs.C02", THEOREMS, extra_files=[
-        L / "FfcxProofs/Lemmas/Geom.lean", L / "FfcxModel/Geometry/RefCell.lean", L / "FfcxModel/IR/Perm.lean",
-        L / "FfcxModel/Generated/RefCells.lean"])
-    # value read = basis function at the entity map of the permuted point
-    chk.lean("FfcxProofs.C03", ["Ffcx.C03.table_access_spec"], extra_files=[L / "FfcxProofs/Lemmas/GeomIndep.lean"])
-    chk.notes["exhaustive_part"] = "the finite reference-cell tables are covered completely by decide; the search part is sampled"
+    check_extraction(chk)
+    c02_ok, known_ok = lean_obligations(chk)
+    chk.exhaustive = True  # the finite reference-cell tables are covered completely by `decide`
 
     # (b) correspondence
     with lean.Driver("driver_geom") as d:
@@ -1757,13 +1840,28 @@ def run(chk):
                 forms_by_name.append((nm, e.build()))
             except Exception as ex:  # noqa: BLE001
                 chk.notes.setdefault("corpus_build_failed", []).append(f"{nm}: {type(ex).__name__}")
-        cases = c02_cases(chk.tier)
-        cases += generated_cases(chk.seed, 24 if chk.tier == "quick" else 96)
+        forms_by_name += extra_corr_forms()
+        cases = c02_cases(chk.tier) + nonaffine_cases()
+        ngen = 24 if quick else 96
+        cases += generated_cases(chk.seed, ngen)
+        read_forms = list(forms_by_name)
+        gen_reads = 0
         for c in cases:
             forms_by_name.append((c.name, [c.make()]))
+            if c.name.startswith("gen_"):
+                if quick and gen_reads >= 6:
+                    continue  # quick tier: the first 6 seeded generated forms take part in the real-table-read tie
+                gen_reads += 1
+            read_forms.append(forms_by_name[-1])
         corr_tables(chk, d, forms_by_name)
         corr_ir_offsets(chk, d, forms_by_name)
-        corr_layout(chk, d, rng)
+        corr_real_table_reads(chk, d, read_forms, rng, per_table=8 if quick else 24,
+                              max_work=3_000_000 if quick else 40_000_000)
+        try:
+            corr_layout(chk, d, rng)
+        except (HarnessGeometryError, AssertionError, IndexError, RuntimeError) as ex:
+            chk.disagree("macro-layout probe could not be set up / compiled",
+                         {"error": f"{type(ex).__name__}: {str(ex)[:300]}"})
 
     # (c) search
     hist = {}
@@ -1782,15 +1880,20 @@ def run(chk):
                     units.append((c, f1, m1))
                 except Exception as ex1:  # noqa: BLE001
                     chk.notes.setdefault("rejected_forms", []).append(f"{c.name}: {type(ex1).__name__}")
+                    if not c.name.startswith("gen_"):
+                        # the fixed forms are accepted on the pinned tree: losing one silently would shrink the search
+                        chk.disagree("a fixed facet form of the search no longer compiles",
+                                     {"case": c.name, "error": f"{type(ex1).__name__}: {str(ex1)[:300]}"})
         chk.programs += len(units)
-        reps = 2 if chk.tier == "quick" else 8
+        reps = 2 if quick else 8
         for c, form, m in units:
             for _ in range(reps if not c.name.startswith("gen_") else 2):
                 w = run_case(chk, c, form, m, rng, chk.tier, hist)
                 worst[c.name] = max(worst.get(c.name, 0.0), w)
     chk.notes["oracle_configs_per_cell"] = hist
     chk.notes["oracle_worst_rel_err"] = {k: float(f"{v:.3e}") for k, v in worst.items()}
-    probe_rfev(chk, rng)
+    reproduced = probe_rfev(chk, rng)
+    known_finding_obligation(chk, c02_ok, known_ok, reproduced)
     oracle_corpus(chk)
-    if chk.tier != "quick":
-        chk.leanchecker(["FfcxProofs.Lemmas.Geom", "FfcxProofs.C02"])
+    if not quick:
+        chk.leanchecker(["FfcxProofs.Lemmas.Geom", "FfcxProofs.C02", "FfcxProofs.C02Known"])
